@@ -1,6 +1,8 @@
 """C18 extras: round trips dump -> load over ALL members and ALL 2^n flag combinations of the enum family, for every
 representation provider and option combination.  This is an exhaustive enumeration of a finite space per class
 (complete for that class) but bounded over classes: it is reported under `bounded`, never as discharged obligations."""
+import datetime
+import enum
 import itertools
 import time
 
@@ -21,7 +23,23 @@ def extra_checks(tier, seed):
         "name-upper": lambda: [enum_by_name(name_style=NameStyle.UPPER)],
         "name-map": lambda: [enum_by_name(map={"a": "first"})],
     }
-    for (cname, cls), (pname, mk) in itertools.product(ep.ENUMS.items(), enum_cfgs.items()):
+    import typing
+    from decimal import Decimal
+
+    class EDec(enum.Enum):           # values whose outer form differs from the value: dumped through the Decimal dumper (str)
+        lo = Decimal("0.5")
+        hi = Decimal("2")
+
+    class EDate(enum.Enum):
+        d1 = datetime.date(2020, 1, 2)
+        d2 = datetime.date(1999, 12, 31)
+    # by value type: "the loader will call the loader of tp and pass it to the enum constructor" — tp must cover all member values
+    value_cfgs = [("E1", ep.E1, typing.Union[int, str]), ("EStr", ep.EStr, str), ("EInt", ep.EInt, int), ("EAlias", ep.EAlias, int),
+                  ("EDec", EDec, Decimal), ("EDate", EDate, datetime.date)]
+    pairs = list(itertools.product(ep.ENUMS.items(), enum_cfgs.items()))
+    pairs += [((cname, cls), (f"value[{getattr(tp, '__name__', tp)}]", (lambda cls=cls, tp=tp: [enum_by_value(cls, tp=tp)])))
+              for cname, cls, tp in value_cfgs]
+    for (cname, cls), (pname, mk) in pairs:
         r = Retort(recipe=mk())
         try:
             reps = [repr(r.dump(m, cls)) for m in cls]       # canonical members only (aliases share a member)
